@@ -401,6 +401,7 @@ func (s *Solver) OneShot(terms []*Term, vars []*Term, timeoutMS int) (Result, Mo
 		s.send(fmt.Sprintf("(set-option :timeout %d)", timeoutMS))
 	} else {
 		s.send("(set-logic QF_BV)")
+		s.send(fmt.Sprintf("(set-option :tlimit-per %d)", timeoutMS))
 	}
 	for _, v := range vars {
 		s.ref(v)
